@@ -1509,6 +1509,187 @@ impl noq::UdpSender for Sender {
 /// Verification hooks, compiled only with `--cfg iroh_verif`.
 #[cfg(iroh_verif)]
 pub mod verif_hooks {
+    use std::{
+        io,
+        net::{IpAddr, SocketAddr},
+        pin::Pin,
+        sync::Arc,
+        task::{Context, Poll, Waker},
+    };
+
+    use iroh_base::{CustomAddr, EndpointId, RelayUrl};
+
+    /// IP transports: loopback bind override, log of `IpSender::poll_send` calls.
+    pub use super::ip::verif_hooks as ip;
     /// `RelayTransport` receive path fed by a caller-owned queue.
     pub use super::relay::verif_hooks as relay;
+    use super::{
+        CustomSender, FourTuple, IpTransports, MappedAddr, Sender, Transmit, TransportsSender,
+    };
+    use crate::metrics::EndpointMetrics;
+
+    /// Outcome class of a `poll_send`.
+    #[derive(Debug, Clone, Copy, PartialEq, Eq)]
+    pub enum SendPoll {
+        /// `Poll::Ready(Ok(()))`
+        Ok,
+        /// `Poll::Ready(Err(_))` with this kind
+        Err(io::ErrorKind),
+        /// `Poll::Pending`
+        Pending,
+    }
+
+    impl From<Poll<io::Result<()>>> for SendPoll {
+        fn from(value: Poll<io::Result<()>>) -> Self {
+            match value {
+                Poll::Ready(Ok(())) => Self::Ok,
+                Poll::Ready(Err(err)) => Self::Err(err.kind()),
+                Poll::Pending => Self::Pending,
+            }
+        }
+    }
+
+    /// The sorted sockets of one address family as `IpTransports::bind` arranged them.
+    #[derive(Debug, Clone, Default)]
+    pub struct FamilyLayout {
+        /// Configuration and actual local address of every socket, in routing order.
+        pub sockets: Vec<(ip::IpCfg, SocketAddr)>,
+        /// `default_vX_index`.
+        pub default_index: Option<usize>,
+    }
+
+    /// A real [`TransportsSender`] over IP sockets bound by `IpTransports::bind`, relay
+    /// senders that end in caller-owned queues and caller-provided custom senders.
+    #[derive(Debug)]
+    pub struct SendHarness {
+        ip: IpTransports,
+        sender: TransportsSender,
+    }
+
+    impl SendHarness {
+        /// Binds `ip_configs` with `IpTransports::bind` (see [`ip::set_loopback_binds`]) and
+        /// assembles the sender.
+        pub fn bind(
+            ip_configs: &[ip::IpCfg],
+            relay: Vec<RelaySenderHandle>,
+            custom: Vec<Arc<dyn CustomSender>>,
+        ) -> io::Result<Self> {
+            let mut configs = Vec::new();
+            for cfg in ip_configs {
+                configs.push(
+                    cfg.to_config()
+                        .ok_or_else(|| io::Error::other("invalid prefix length"))?,
+                );
+            }
+            let metrics = EndpointMetrics::default();
+            let ip = IpTransports::bind(configs.into_iter(), &metrics)?;
+            let sender = TransportsSender {
+                ip: ip.create_sender(),
+                relay: relay.into_iter().map(|handle| handle.0).collect(),
+                custom,
+                max_transmit_segments: std::num::NonZeroUsize::MIN,
+            };
+            Ok(Self { ip, sender })
+        }
+
+        /// A relay sender for [`Self::bind`] together with the queue it ends in.
+        pub fn relay_sender(capacity: usize) -> (RelaySenderHandle, relay::RelaySendQueue) {
+            let (sender, queue) = relay::relay_sender(capacity);
+            (RelaySenderHandle(sender), queue)
+        }
+
+        /// The bound sockets in routing order: (IPv4, IPv6).
+        pub fn layout(&self) -> (FamilyLayout, FamilyLayout) {
+            let (v4, d4, v6, d6) = self.ip.verif_layout();
+            (
+                FamilyLayout {
+                    sockets: v4,
+                    default_index: d4,
+                },
+                FamilyLayout {
+                    sockets: v6,
+                    default_index: d6,
+                },
+            )
+        }
+
+        /// `TransportsSender::poll_send` for a network path.
+        pub fn poll_send_path(&mut self, path: &FourTuple, contents: &[u8]) -> SendPoll {
+            let transmit = Transmit {
+                ecn: None,
+                contents,
+                segment_size: None,
+            };
+            let mut cx = Context::from_waker(Waker::noop());
+            Pin::new(&mut self.sender)
+                .poll_send(&mut cx, path, &transmit)
+                .into()
+        }
+
+        /// `noq::UdpSender::poll_send` of the [`Sender`] QUIC uses, built over `endpoint`'s
+        /// socket state (closed flag, mapped addresses, per-endpoint actors) and a clone of
+        /// this harness' transports sender.
+        pub fn poll_send_quic(
+            &self,
+            endpoint: &crate::Endpoint,
+            destination: SocketAddr,
+            src_ip: Option<IpAddr>,
+            contents: &[u8],
+        ) -> SendPoll {
+            let mut sender = Box::pin(Sender {
+                sock: endpoint.verif_sock(),
+                sender: self.sender.clone(),
+            });
+            let transmit = noq_udp::Transmit {
+                destination,
+                ecn: None,
+                contents,
+                segment_size: None,
+                src_ip,
+            };
+            let mut cx = Context::from_waker(Waker::noop());
+            noq::UdpSender::poll_send(sender.as_mut(), &transmit, &mut cx).into()
+        }
+    }
+
+    /// Opaque relay sender for [`SendHarness::bind`].
+    #[derive(Debug)]
+    pub struct RelaySenderHandle(super::RelaySender);
+
+    /// The mapped socket address `endpoint` uses for the relay path `(url, id)` (created on
+    /// first use, like `Socket::process_datagrams` does).
+    pub fn map_relay(endpoint: &crate::Endpoint, url: RelayUrl, id: EndpointId) -> SocketAddr {
+        endpoint
+            .verif_sock()
+            .mapped_addrs
+            .relay_addrs
+            .get(&(url, id))
+            .private_socket_addr()
+    }
+
+    /// The mapped socket address `endpoint` uses for the custom address `addr`.
+    pub fn map_custom(endpoint: &crate::Endpoint, addr: CustomAddr) -> SocketAddr {
+        endpoint
+            .verif_sock()
+            .mapped_addrs
+            .custom_addrs
+            .get(&addr)
+            .private_socket_addr()
+    }
+
+    /// The mapped socket address `endpoint` uses for the remote endpoint `id`.
+    pub fn map_endpoint(endpoint: &crate::Endpoint, id: EndpointId) -> SocketAddr {
+        endpoint
+            .verif_sock()
+            .mapped_addrs
+            .endpoint_addrs
+            .get(&id)
+            .private_socket_addr()
+    }
+
+    /// Returns and clears the `Socket::try_send_remote_state_msg` calls made on this thread:
+    /// (endpoint id, whether a per-endpoint actor inbox exists for it).
+    pub fn take_remote_state_log() -> Vec<(EndpointId, bool)> {
+        crate::socket::verif_take_remote_state_log()
+    }
 }
